@@ -13,7 +13,7 @@ from engine.aseshim import SymAtoms, sym_cell, sym_pbc, sym_positions, sym_int_r
 from engine.npshim import NP, det_term
 from engine.pyvc import SR, SB, sint, sreal, z3num, z3bool, mkbool, cur
 from engine.symcoll import LoopSpec, SymSeq, Opaque
-from props._util import run_fv, section, sections_parallel
+from props._util import run_fv, section, sections_parallel, result_lists
 from props import C10
 
 REL = "matid/geometry/geometry.py"
@@ -155,7 +155,9 @@ def _matches(rep):
         names = ["matches", "substitutions", "vacancies"]
 
         def havoc(st, env, old):
-            for nm in names:
+            real = result_lists(env, names, (list, Log))
+            st.ghost["list_names"] = dict(zip(names, real))
+            for nm in real:
                 env.vars[nm] = Log()
             st.ghost["row_writes"] = []
             for nm in ("i", "position", "atomic_number", "match", "substitution", "copy_index", "displacement", "cell_list_result", "indices", "distances", "factors",
@@ -168,7 +170,7 @@ def _matches(rep):
             qpos = st.ghost["ctx"]["qpos"]
             out = []
             out.append(("queried-at-the-given-position", z3.And([z3num(qxyz[c]) == z3num(qpos.row(k)[c]) for c in range(3)])))
-            logs = {nm: env.lookup(nm).log for nm in names}
+            logs = {nm: env.lookup(st.ghost["list_names"][nm]).log for nm in names}
             out.append(("one-match-entry-and-one-substitution-entry-per-query", z3.BoolVal(len(logs["matches"]) == 1 and len(logs["substitutions"]) == 1)))
             if len(logs["matches"]) != 1 or len(logs["substitutions"]) != 1:
                 return out
@@ -253,7 +255,9 @@ def _matches_simple(rep):
             return [system, CellListShim(), qpos, qnum, tol], {}, {}
 
         def havoc(st, env, old):
-            for nm in ("matches", "displacements"):
+            real = result_lists(env, ("matches", "displacements"), (list, Log))
+            st.ghost["list_names"] = dict(zip(("matches", "displacements"), real))
+            for nm in real:
                 env.vars[nm] = Log()
             for nm in ("wrapped_position", "atomic_number", "match", "displacement", "cell_list_result", "indices", "distances", "min_distance_index", "closest_distance",
                        "closest_index", "closest_atomic_number"):
@@ -262,8 +266,8 @@ def _matches_simple(rep):
         def body(st, env, k, old):
             c = st.ghost["ctx"]
             r, qxyz = st.ghost["last_query"]
-            mt = env.lookup("matches").log
-            dp = env.lookup("displacements").log
+            mt = env.lookup(st.ghost["list_names"]["matches"]).log
+            dp = env.lookup(st.ghost["list_names"]["displacements"]).log
             out = [("one-entry-per-query", z3.BoolVal(len(mt) == 1 and len(dp) == 1))]
             if len(mt) != 1:
                 return out
